@@ -22,6 +22,7 @@ theorems) keeps their former counter-examples as statements about the OLD checks
 -/
 import CaddyModel.C13.Lemmas
 import CaddyModel.C13.Witness
+import CaddyModel.C13.ListenLemmas
 import CaddyModel.Gen.AdminGate
 
 namespace CaddyModel.C13
@@ -97,6 +98,52 @@ theorem local_endpoint_rejects_foreign_host (H : Bytes → Req → σ → σ) (m
   · intro al hal heq
     have hal' : al ∈ allowedOrigins cfg.origins a := by simpa [newAdminHandler] using hal
     exact hh ⟨al.scheme, heq ▸ (mem_allowedOrigins_iff cfg a al).1 hal'⟩
+
+-- ================================================================ from the configured listen STRING to the gate
+
+/-- **`host:port` listen strings** (the glue in front of `newAdminHandler`, parsed by the model of
+    `parseAdminListenAddr`): for a non-empty plain host (a name or an IPv4 address) that netip does
+    not classify as unspecified, and a decimal port, the endpoint starts, the Host check is on,
+    and a request whose Host is not an allowed origin of exactly that host and port reaches no
+    handler and changes nothing. -/
+theorem plain_listen_string_host_gate (H : Bytes → Req → σ → σ) (mux : Bytes → Bytes → Route) (cfg : AdminCfg)
+    (h ds dflt : Bytes) (ip : IpClass) (modulePats : List Bytes) (idx : Index) (fuel : Nat) (r : Req) (s : σ)
+    (hh : ∀ b ∈ h, plainHostByte b) (hne : h ≠ []) (hip : ip ≠ .unspecified)
+    (hdne : ds ≠ []) (hd : ∀ b ∈ ds, isDigitB b = true) (hle : digitsVal 10 ds ≤ 65535)
+    (hhost : ¬ HostAllowed cfg ⟨sTcp, h, digitsVal 10 ds, ip⟩ r.host) :
+    ∃ hd', localEndpoint cfg (h ++ colon :: ds) dflt ip modulePats = some hd' ∧ hd'.enforceHost = true ∧
+      Untouched (serveHTTP H mux hd' idx fuel r s) s := by
+  have hspec : SpecificAddress ⟨sTcp, h, digitsVal 10 ds, ip⟩ := by
+    refine ⟨(by show hasPrefix sTcp sUnix = false; decide), (by show hasPrefix sTcp sFd = false; decide), ?_⟩
+    cases ip <;> simp_all [Addr.isWildcard]
+  refine ⟨newAdminHandler cfg ⟨sTcp, h, digitsVal 10 ds, ip⟩ false modulePats, ?_, ?_, ?_⟩
+  · simp [localEndpoint, parse_plain_host_port h ds dflt hh hdne hd hle]
+  · exact (enforceHost_iff_specific_address cfg _ modulePats).2 hspec
+  · exact local_endpoint_rejects_foreign_host H mux cfg _ modulePats idx fuel r s hspec hhost
+
+/-- **`:port` listen strings bind every interface**: the host is empty, so the Host check is off
+    (the "not a wildcard interface" exclusion of the property, decided from the string). -/
+theorem empty_host_listen_string_not_enforced (cfg : AdminCfg) (ds dflt : Bytes) (ip : IpClass)
+    (modulePats : List Bytes) (hdne : ds ≠ []) (hd : ∀ b ∈ ds, isDigitB b = true) (hle : digitsVal 10 ds ≤ 65535) :
+    ∃ hd', localEndpoint cfg (colon :: ds) dflt ip modulePats = some hd' ∧ hd'.enforceHost = false := by
+  have hp := parse_plain_host_port [] ds dflt (by simp) hdne hd hle
+  simp at hp
+  exact ⟨newAdminHandler cfg ⟨sTcp, [], digitsVal 10 ds, ip⟩ false modulePats, by simp [localEndpoint, hp],
+    by simp [newAdminHandler, Addr.isWildcard]⟩
+
+/-- **`unix/<path>` listen strings**: the endpoint is a unix socket and the Host check is off,
+    whatever the path looks like (the "not a unix socket" exclusion, decided from the string). -/
+theorem unix_listen_string_not_enforced (cfg : AdminCfg) (path dflt : Bytes) (ip : IpClass)
+    (modulePats : List Bytes) (hp : ∀ b ∈ path, b ≠ 124) :
+    ∃ hd', localEndpoint cfg (sUnix ++ slash :: path) dflt ip modulePats = some hd' ∧
+      hd'.enforceHost = false ∧ hd'.allowed = (match cfg.origins with | some l => l.filterMap entryAllowed | none => []) := by
+  refine ⟨newAdminHandler cfg ⟨sUnix, path, 0, ip⟩ false modulePats,
+    by simp [localEndpoint, parse_unix_socket path dflt hp], ?_, ?_⟩
+  · have : Addr.isUnix ⟨sUnix, path, 0, ip⟩ = true := by show hasPrefix sUnix sUnix = true; decide
+    simp [newAdminHandler, this]
+  · have : Addr.isUnix ⟨sUnix, path, 0, ip⟩ = true := by show hasPrefix sUnix sUnix = true; decide
+    simp [newAdminHandler, allowedOrigins, this]
+    cases cfg.origins <;> rfl
 
 -- ================================================================ local endpoint: Origin
 
@@ -364,6 +411,26 @@ example : SpecificAddress exLan ∧ ¬ HostAllowed ⟨none, false, none⟩ exLan
   revert h; decide
 -- … and the conclusion is not vacuous: the same request with an allowed Host is served
 example : Served (serveReal count (newAdminHandler exCfg exAddr false exPats) exIdx 3 exGood 0) := by decide
+-- plain_listen_string_host_gate: "192.168.1.5:2019" with Host evil.com; the parser's other branches
+example : (∀ b ∈ str "192.168.1.5", plainHostByte b) ∧ str "192.168.1.5" ≠ [] ∧ (∀ b ∈ str "2019", isDigitB b = true)
+    ∧ digitsVal 10 (str "2019") = 2019 ∧ ¬ HostAllowed ⟨some [], false, none⟩ ⟨sTcp, str "192.168.1.5", 2019, .other⟩ (str "evil.com") := by
+  refine ⟨by decide, by decide, by decide, by decide, ?_⟩
+  rintro ⟨sc, hx⟩
+  simp [AllowedOrigin] at hx
+example : parseAdminListenAddr (str "[::1]:2019") [] = .ok sTcp (str "::1") 2019
+    ∧ parseAdminListenAddr (str "::1") [] = .ok sTcp (str "::1") 0
+    ∧ parseAdminListenAddr (str " TCP /localhost:02019") [] = .ok sTcp (str "localhost") 2019
+    ∧ parseAdminListenAddr [] (str "localhost:2019") = .ok sTcp (str "localhost") 2019
+    ∧ parseAdminListenAddr (str "fd/3") [] = .ok sFd (str "3") 0
+    ∧ parseAdminListenAddr (str "unix//run/c.sock|0220") [] = .ok sUnix (str "/run/c.sock|0220") 0
+    ∧ parseAdminListenAddr (str "unix//run/c.sock|0444") [] = .err
+    ∧ parseAdminListenAddr (str "localhost:2019-2020") [] = .err
+    ∧ parseAdminListenAddr (str "localhost:x") [] = .err
+    ∧ parseAdminListenAddr (str "a:b:c") [] = .ok sTcp (str "a:b:c") 0 := by decide   -- (sic: the lenient second try)
+-- empty_host_listen_string_not_enforced / unix_listen_string_not_enforced
+example : (localEndpoint exCfg (str ":2019") [] .notIP []).map (·.enforceHost) = some false
+    ∧ (localEndpoint exCfg (str "unix//run/caddy.sock") [] .notIP []).map (·.enforceHost) = some false
+    ∧ (localEndpoint exCfg (str "localhost:2019") [] .notIP []).map (·.enforceHost) = some true := by decide
 -- origin_gate / local_endpoint_rejects_foreign_origin: right Host, foreign Origin
 def exCsrf : Req := { exGood with origin := str "http://evil.com", originUrl := ⟨true, str "http", str "evil.com"⟩ }
 example : (newAdminHandler exCfg exAddr false exPats).enforceOrigin = true ∧
